@@ -100,6 +100,11 @@ def plan(tier, seed):
                 sp = rnd.choice(allowed) if tier == "quick" else None
                 for spell in ([sp] if sp else allowed):
                     pats = [spell.replace("{n}", str(sites[i])).replace("{abs}", "{proj}/pkg/code.py") for i in sub]
+                    # decoy entries naming the line right AFTER a site that is not in the list (and the line before it): a pattern stands for its own line only
+                    others = [i for i in range(K) if i not in sub]
+                    if others and len(jobs) % 3 == 0:
+                        o_ = others[len(jobs) % len(others)]
+                        pats += [spell.replace("{n}", str(sites[o_] + 1)).replace("{abs}", "{proj}/pkg/code.py"), spell.replace("{n}", str(max(1, sites[o_] - 1))).replace("{abs}", "{proj}/pkg/code.py")]
                     argv = ["{proj}", "--output", "{out}", "--codemod-include", j["cid"], "--path-" + mode, ",".join(pats)]
                     # the target directory as the user types it: canonical absolute path, relative to the cwd, ".", through a symlink, with a trailing slash
                     targets = ("abs", "rel", "dot", "symlink", "trailing-slash", "dotdot")
